@@ -76,6 +76,8 @@ def build(pkg, m, av, use_ctor=None):
         return getattr(cls, av.tag)(build(pkg, m, av.value, use_ctor))
     if isinstance(av, list):
         return [build(pkg, m, x, use_ctor) for x in av]
+    if isinstance(av, tuple):
+        return tuple(build(pkg, m, x, use_ctor) for x in av)
     if isinstance(av, dict):
         return {k: build(pkg, m, v, use_ctor) for k, v in av.items()}
     return av
